@@ -7,6 +7,9 @@ CHECKS = {
  "C01": dict(engine="A", technique="property-based differential testing: real LR parser vs independent Earley recogniser on generated grammars and inputs (proptest, shrinking)",
    text="Bounded random exploration: thousands of generated BNF grammars (nullable, left/right/hidden recursion, literature shapes incl. LR(1)-not-LALR) x dozens of generated inputs each, for LALR and LALR_PAGER; every Ok/Err of the real runtime driven by the real table is compared with an Earley recogniser that shares no code with rustemo. Gives evidence, not proof, for grammars <= 8 nonterminals and inputs <= 12 tokens.",
    note="Trusted: the harness's Earley recogniser and sentence generator; the dump hook copies table data faithfully; dump-driven recognisers mirror generated ones (C08 covers generated code)."),
+ "C02": dict(engine="A", technique="property-based testing with a validity predicate on every returned tree + metamorphic relation (partial parse off => on) over generated grammars with disambiguation meta-data (proptest, shrinking)",
+   text="Bounded random exploration: generated conflicting grammars resolved by random priorities/associativity/nops/nopse/prefer-shift settings; every tree the real LR parser returns (partial parsing off and on) is checked to be a derivation of the consumed input against the harness's own spec of the grammar (root, every production, exact child counts, leaves = the input's tokens with spans), and enabling partial parsing must not change an accepted parse.",
+   note="Trusted: generator's token list is the unique tokenisation (prefix-free terminals); the spec rendered to text is the grammar (C09 checks the reading of the text)."),
  "C03": dict(engine="A", technique="property-based testing with an exhaustive reference oracle: GLR forest vs independent derivation-tree enumerator (proptest, shrinking)",
    text="Bounded random exploration of ambiguous / non-LR / nullable / hidden-recursive / lexically ambiguous grammars; for each input the complete set of derivation trees is enumerated by an independent memoised enumerator and compared as a multiset with every tree of the real forest (by index and by all three iteration routes), including counts and out-of-range indexes.",
    note="Trusted: reference enumerator and its scope decision (acyclic, <=1 empty derivation per nonterminal); regex crate for reference recognisers; <=300 trees, <=9 tokens."),
@@ -16,6 +19,9 @@ CHECKS = {
  "C05": dict(engine="A", technique="model-based property testing of every conflicting table cell against the documented decision function + differential testing against a precedence-climbing parser (proptest, shrinking)",
    text="Bounded random exploration: conflict-rich generated grammars with random priorities/associativity (productions, rules, terminals)/nops/nopse x {LR,GLR} x prefer_shifts x prefer_shifts_over_empty x {LALR,LALR_PAGER}; every cell of the resolved real table is compared with the raw real table through a declarative model of the documented rules (strong on two-candidate cells, order-independent predicate on multi-way cells; compiler abort is a failure); annotated expression grammars are parsed by the real LR parser and compared with a precedence-climbing reference.",
    note="Trusted: the harness's reading of the documented rules (DESIGN.md appendix A.1); effective production meta-data taken from the spec; state correspondence raw/resolved verified per case."),
+ "C06": dict(engine="A", technique="model-based property testing: real LR/GLR parsers vs reference interpreters implementing the documented lexical strategy pipeline over the same real table (proptest, shrinking)",
+   text="Bounded random exploration: overlapping string/regex terminal sets with random priorities under small deterministic grammars, all combinations of most_specific / longest_match / grammar_order for LR and GLR, inputs from sentences and random strings; tokens chosen by the real LR parser and the set of tokenisations followed by the real GLR parser are compared with a reference interpreter that applies priority -> most specific -> longest match -> grammar order to the expected terminals of each state.",
+   note="Trusted: reference recognisers (regex crate); the model's reading of the documented order (DESIGN.md appendix A.2); no empty-matching regexes, no duplicate string recognisers."),
  "C07": dict(engine="A", technique="property-based differential testing: real LR parser vs real GLR parser on the same generated deterministic grammar (proptest, shrinking)",
    text="Bounded random exploration: for generated conflict-free grammars the LR parser (defaults) and the GLR parser (LALR_RN) built from the same text are run on generated valid and invalid inputs (ASCII and multi-byte, multi-line); acceptance, solution count, tree (productions, token kinds/texts/spans, node spans after stripping trailing empty children) and error positions must agree.",
    note="Trusted: scope decision uses the real raw table (cross-checked against an independent LR(1) construction in C04); no Layout rule (GLR trees carry no layout by design)."),
